@@ -104,7 +104,7 @@ def gen_args(rng, fn, sig):
             n = rng.choice([0, 1, 2, 8, 16, 17, 120, 121, 122, 130])
             args.append([rng.choice([0xFF, 0x20, 0x0A, 0x09, 0x0D, 0x0B, 0x0C, 0x00, 0x1F, 0x85, 0xA0, rng.randrange(256)]) for _ in range(n)])
         elif p == "V":
-            a = rng.choice([0, 1, 59, 60, 119, 120]); b = rng.choice([0, 1, 59, 60, 119, 120])
+            a = rng.choice([0, 1, 59, 60, 119, 120, 127, 128, 200, 254, 255]); b = rng.choice([0, 1, 59, 60, 119, 120, 127, 128, 200, 254, 255])
             args += [a, [rng.randrange(256) for _ in range(a)], b, [rng.randrange(256) for _ in range(b)]]
     # make length arguments meaningful more often
     if fn in ("bidib_send_fw_update_op_data", "bidib_send_vendor_get") and rng.random() < 0.7: args[0] = min(len(args[1]), 255)
@@ -204,6 +204,36 @@ def cap_session(rng, sid, cfgdir, nev, directed=False):
 
 def classify_ll(ev):
     return ev.get("fn", ev.get("e"))
+
+def _conc_stage(ctx, pid, thorough, rng, exe):
+    """C01 'every interleaving of concurrently sending threads': senders that also flush, the receiver releasing held messages
+    and the auto-flush thread under PCT / random schedules (the write callback is a scheduling point); the bytes of all write
+    calls in call order must be well-formed packets carrying every accepted message exactly once (Trace_Conc)"""
+    from checks import conc_send
+    scripts = []
+    for i in range(60 if thorough else 14):
+        K = rng.choice([2, 3, 4, 8, 16]) if thorough else rng.choice([2, 3, 4, 8])
+        pol = rng.choice(["pct %d 3 %d" % (rng.randrange(10 ** 6), 40 * K), "rnd %d" % rng.randrange(10 ** 6), "rnd %d" % rng.randrange(10 ** 6)])
+        scripts.append(conc_send.conc_script(rng, "cw%d" % i, K, rng.choice([3, 5]), pol, flush_ms=rng.choice([0, 0, 20]), feeder=(i % 2 == 0)))
+    res = drv.run(exe, scripts, timeout=90)
+    items = []
+    for s in scripts:
+        rr = res.get(s.sid)
+        if rr is None or rr.status != "ok":
+            ctx.violation("concurrent senders %s: process ended with %s (code %s)" % (s.sid, rr.status if rr else "missing", rr.code if rr else "?"),
+                          {"kind": "crash", "script": s.text(), "stderr": rr.stderr[-4000:] if rr else ""}); continue
+        ev = conc_send.trace_of(s, rr)
+        if ev is None or any(e["e"] == "deadlock" for e in ev):
+            ctx.violation("concurrent senders %s did not run to completion" % s.sid, {"kind": "crash", "script": s.text(), "stderr": rr.stderr[-3000:]}); continue
+        for o in rr.out.values():
+            if o[0].get("op") == "threads": s.decisions = o[0].get("dec"); ctx.cov["evaluations"] += o[0].get("decisions", 0); ctx.distinct(("sched",) + tuple(o[0].get("dec", [])[:40]))
+        items.append((s, ev))
+    rej = check.validate_scripts(ctx, "Trace_Conc.tla", "Trace_Conc.cfg", items, timeout=900, first_event="creset")
+    for s, ev, k, r in rej:
+        ctx.violation("concurrent senders %s: the bytes handed to the write callback are not the accepted messages, each once, in well-formed packets: event %d %s refused" % (
+            s.sid, k, json.dumps(ev[k])[:300] if k < len(ev) else "(end)"),
+            {"kind": "trace", "module": "Trace_Conc.tla", "cfg": "Trace_Conc.cfg", "script": s.text(), "decisions": getattr(s, "decisions", None), "events": ev, "refused_at": k})
+    ctx.cov["concurrent_sender_sessions"] = len(items)
 
 def _cap_stage(ctx, pid, thorough, rng, exe):
     import tempfile, shutil
@@ -364,6 +394,7 @@ def run(pid, tier):
                              "refused_at": k, "spec_state_before": state})
     if pid == "C01":
         _cap_stage(ctx, pid, thorough, rng, exe)
+        _conc_stage(ctx, pid, thorough, rng, exe)
     for s, ev in items[1:4]:
         ctx.sample({"script": s.sid, "events": ev[:12]})
     ctx.cov["rule"] = ("cases = events executed on the real library; distinct = distinct (call or uplink kind, message type, "
